@@ -1,6 +1,6 @@
 PROP = {
-    "groups": ["tunnel", "tunnel-e2e"],
-    "timeout": 900,
+    "groups": ["tunnel", "tunnel-e2e", "tunnel-relay"],
+    "timeout": 300,
     "rule": "group tunnel (real tunnel code through export_verif_tunnel.go on real 127.0.0.1 sockets, in-process): "
             "getHelloConstant on ids of length 0..17 (digits, arbitrary bytes, ':' and '%') x ports incl. 0, negative and 64-bit extremes; "
             "sequential scenarios = trace replay of the interleaving model: 1..7 connections of kinds wrong greeting / right prefix wrong id or port / "
@@ -12,26 +12,54 @@ PROP = {
             "group tunnel-e2e: the real filter (SetTunnelConnector) against the real trz/tsz child processes, trigger line held back while intruders talk to the announced port, "
             "connector outcomes genuine / refuses / late / dead / reaches a silent stranger, stragglers (connect early, speak after the genuine handshake) and late-comers, "
             "in-band garbage written to the child's stdin after the tunnel was agreed; compared: who was answered and the path (tunnel / in-band). "
+            "group tunnel-relay (the RELAY's tunnel code, relay.go, through a real trzsz.NewTrzszRelay with SetTunnelConnector on real 127.0.0.1 sockets; every scenario in a child process of the harness, "
+            "9 sequential or 3 end-to-end scenarios per child, because the relay's tunnel pumps busy-loop once their connection is closed locally): "
+            "rtunnel_rewrite = the real listenForTunnel on buffers with no / one / several / overlapping / prefix-extended occurrences of `:<id>:<server port>`; "
+            "rtunnel_run = trace replay of the second interleaving model: 1..6 clients on the relay's announced port of the kinds of group tunnel plus `hello computed from the server's port`, a scripted connector "
+            "(nil / reaches a harness server that answers right / for another id / for the relay's port / extended / split / echoes / is silent / closes / is dead), events interleaved at random one at a time, "
+            "SetTunnelConnector(nil), payload on the adopted pair while the relay is handshaking (parked) and after resetToStandby (crosses both ways), payload on intruders and losers, "
+            "a straggler greeting after the reset (second bridge in a later era), the client leaving after the reset; every client kind alone / before / after a genuine pair, every server kind, every end game as corpus; "
+            "compared per client and per server connection: refused / closed unanswered / open / exactly which bytes arrived / closed by the relay, and which pair is in tunnelRelay; "
+            "rtunnel_e2e = real filter -> real relay -> real trz/tsz child with the tunnel through the relay, the RELAYED trigger held back while intruders talk to the relay's port. "
             "non-trivial = every scenario (at least one connection is handled); distinct = distinct input line",
     "trusted": ["modelled, not verified: the kernel's TCP (a Read returns what has arrived, at most the buffer size; a listener's backlog is FIFO; connecting to a closed listener is refused), "
                 "the Go runtime (goroutines run, time.After fires, atomic.Pointer is sequentially consistent), JSON/zlib/base64 of the ACT line",
                 "the statement skeleton of acceptOnTunnel, connectToTunnel, addReceivedData, cleanup, wrapTransferInput and of the tunnel parts of sendAction/recvAction is regenerated from the source "
-                "(Gen/Skel_tunnel.v) and proved equal to the one the model transcribes (C17_skeleton)"],
+                "(Gen/Skel_tunnel.v) and proved equal to the one the model transcribes (C17_skeleton)",
+                "relay: the statement skeleton of SetTunnelConnector, listenForTunnel, acceptOnTunnel, handleTunnelConn, newTunnelRelay, tunnelRelay.wrapInput / wrapOutput and resetToStandby, every send into / close of a bridge channel "
+                "with its guard, every write of tunnelRelay / tunnelConnected / tunnelListener / tunnelConnector / tr.relay, every write of the plain fields r.trigger / r.tunnelRelayPort and every start of a tunnel goroutine are regenerated "
+                "(Gen/Skel_rtunnel.v) and proved equal to what the model transcribes (C17_relay_skeleton); channel capacity, read sizes, pump buffer size and the rewrite format come from Gen/Consts.v (rtunnel_*)"],
     "assumptions": ["sequentially consistent interleaving of the acceptor, handler, pump, connector, select and main goroutines at the granularity of one I/O / atomic / channel / wait-group / timer operation",
                     "reads of the unsynchronised local `timeout` of connectToTunnel return an arbitrary boolean (no theorem relies on it)",
                     "the `stopped` flag of addReceivedData (which only discards) is not modelled",
                     "the peer that knows the transfer's id and port (both shown on the terminal) is by definition authenticated: what an ADOPTED connection sends is the transfer's input",
-                    "the relay's own tunnel code (relay.go) is not covered"],
+                    "relay model: one trigger (one listener, one quadruple of hellos) with resetToStandby and everything that keeps running after it; resetToStandby's four tunnel statements are one step "
+                    "(it runs under the relayStatus compare-and-swap and never concurrently with the relay's own sends); a pump's Read and the channel send that follows are one step; relayStatus is outside the model "
+                    "(whether a pump parks a chunk in the handshake buffer or forwards it is an arbitrary choice of the schedule; what the relay itself sends into the adopted bridge is arbitrary: C13/C14's subject)",
+                    "relay: the unsynchronised plain fields r.trigger and r.tunnelRelayPort (read by every handler, written by wrapOutput at the NEXT trigger) are outside the model: a handler still running when a second trigger arrives "
+                    "would dial the new server port with the old id (rejected by that server, C17_unauth_closed_unanswered)",
+                    "relay: a server connection that answers the hello for (id, server port) is by definition the transfer's server (it knows id and port), as a client that presents the hello for (id, relay port) is the transfer's client"],
 }
 TEXT = {
     "text": "Machine-checked proof over an executable interleaving model of acceptOnTunnel / connectToTunnel / addReceivedData / sendAction / recvAction (every schedule, every number and behaviour of connecting peers): "
             "whatever is adopted had its single first read equal to the hello derived from id and port; at most one connection ever wins the compare-and-swap and the cell never changes again; a connection presenting anything else "
             "gets no byte and is closed by the very next step of its handler; only the adopted connection's bytes enter the transfer's buffer; once tunnelConnected is set no in-band chunk does; without an adopted connection the "
-            "writer stays the terminal, nothing is dropped and the ACT says tunnel=false; sendAction gets past the wait in at most five steps of the client's own threads and the timer. Tied to the code by regenerated constants "
-            "and statement skeleton, by trace replay of the extracted model against the real functions on real loopback sockets, and by end-to-end runs of the real binaries with scripted intruders.",
+            "writer stays the terminal, nothing is dropped and the ACT says tunnel=false; sendAction gets past the wait in at most five steps of the client's own threads and the timer. "
+            "WITH A RELAY IN THE PATH, a second interleaving model of the relay's own tunnel code (listenForTunnel, acceptOnTunnel, handleTunnelConn, newTunnelRelay, tunnelRelay.wrapInput/wrapOutput, resetToStandby): a client connection is bridged "
+            "to the server only if its single first read was exactly the hello for (id, relay port) and the single answer of the connection the connector returned was exactly the hello for (id, server port); the client is answered only after the "
+            "server answered; a client presenting anything else gets no byte, no server connection is even opened for it, and its handler's next statement closes it; tunnelRelay holds a pair exactly when it won the compare-and-swap since the last "
+            "reset, at most one per era, and changes only by a reset; every chunk on a bridge was read from that pair's own other connection or sent by the relay itself, and only a pair that won ever has a chunk, a pump or the back-pointer; the pair "
+            "that loses the swap gets both connections closed; the rewrite of `:<id>:<server port>` to `:<id>:<relay port>` in the relayed trigger is what makes the genuine client's hello match (a hello computed from the server's port is rejected). "
+            "Tied to the code by regenerated constants and statement skeleton, by trace replay of the extracted models against the real functions on real loopback sockets (the relay through trzsz.NewTrzszRelay, in child processes), "
+            "and by end-to-end runs of the real binaries, with and without a relay, with scripted intruders.",
     "note": "Limits: a connection that presents the right hello after another one won the swap has been ANSWERED and is simply dropped (not adopted, feeds nothing; its descriptor is closed only when the Go garbage collector finalizes it); "
             "a connection that says nothing keeps its handler goroutine and descriptor until the process exits (the single Read has no deadline); a connection that is accepted but never adopted on the client (late connector) stays adopted and "
             "open on the server; between the handler's Write of the server hello and its CompareAndSwap a second AUTHENTICATED connection can win, in which case the first client believes it has a tunnel the server never reads (both peers know id and port, "
-            "so outside the property's letter). The unsynchronised `timeout` flag is outside the model.",
+            "so outside the property's letter). The unsynchronised `timeout` flag is outside the model. "
+            "Relay: 'at most one bridge EVER' is false and refuted in the model (C17_relay_at_most_one_ever_refuted: a client that connected before the listener was closed and greets only after resetToStandby wins a second swap if the connector still "
+            "reaches somebody who answers with the server's hello; reproduced on the real relay by the correspondence run); between the relay's Write of the server hello to the client and its compare-and-swap a second authenticated pair can win, "
+            "the loser is then closed; a reset between a handler's swap and its tr.relay.Store(r) leaves a non-adopted bridge with its back-pointer set (C17_relay_stale_backpointer_reachable; a window of a few instructions, not observed); a silent client "
+            "or a silent server connection keeps its handler and descriptors for ever (no deadline on the single Reads). Observed, outside the listed properties: the relay's tunnel pumps busy-loop for ever once their own connection has been closed by the "
+            "relay itself (C17_relay_obs_pump_spins_for_ever; counted in the evidence as observation:busy-loop).",
     "technique": "Coq proof (invariants over an executable labelled transition system) + regenerated constants and statement skeleton + trace-replay correspondence on real sockets + end-to-end oracle on the real binaries",
 }
